@@ -193,6 +193,9 @@ C09_TEMPLATES = {
     "image-alt": (lambda e: "![" + e + "](/u)\n", lambda h: f'alt="{h}"'),
     "link-title": (lambda e: '[x](/u "' + e + '")\n', lambda h: f'title="{h}"'),
     "table-cell": (lambda e: "| " + e + " |\n|---|\n", lambda h: f"<th>{h}</th>"),
+    # the other spellings of a row: leading pipe only, and no outer pipes at all (body rows)
+    "table-cell-open-row": (lambda e: "| h\n| ---\n| " + e + "\n", lambda h: f"<td>{h}</td>"),
+    "table-cell-bare-row": (lambda e: "h | h\n--- | ---\n" + e + " | x\n", lambda h: f"<td>{h}</td>"),
 }
 
 
@@ -205,7 +208,7 @@ def c09_literal(state, cfg, t):
     for form_name, enc in (("backslash", esc), ("charref", ent)):
         e = enc(t)
         for name, (mk, want) in C09_TEMPLATES.items():
-            if name == "table-cell" and "table" not in md.get_active_rules()["block"]:
+            if name.startswith("table-cell") and "table" not in md.get_active_rules()["block"]:
                 continue
             if name == "emphasis" and form_name == "charref" and False:
                 continue
@@ -862,6 +865,8 @@ C20_FAMILIES = {
     "hr-ish": lambda n: "- " * n, "headings": lambda n: "# a\n" * n, "fences": lambda n: "```\n" * n, "html-ish": lambda n: "<div>\n" * n,
     "spaces": lambda n: " " * n + "a", "newlines": lambda n: "a\n\n" * n, "refdefs": lambda n: "".join(f"[a{i}]: /u\n" for i in range(n)),
     "ref-use": lambda n: "[a]: /u\n\n" + "[a] " * n, "link-nest": lambda n: "[" * n + "a" + "](/u)" * n, "setext": lambda n: "a\n" * n + "===\n",
+    # look-ahead over complete links from unmatched openers (exponential unless the skip memo survives a recognised link)
+    "img-open-links": lambda n: "![[]()" * n, "open-links": lambda n: "[[a](b)" * n, "links": lambda n: "[a](b) " * n, "link-in-open-label": lambda n: "[a [b](c) " * n,
 }
 
 
@@ -983,6 +988,63 @@ def gen_c19(tier):
                 yield ("".join(parts), q)
         for d in ['"a" <http://a.b/\'c\'> \'x\'', '[x](/u) <http://q/--x...v1...v2> ...', "*\"a\"* '**b**' \"c'd\"", "\"a `\"c\"` b\"", "\"[a](/u \"t\")\"", "1\"\" 2'", "''a'' \"\"b\"\""]:
             yield (d, q)
+
+
+# C19, last clause: characters written as backslash escapes or character references are never rewritten - a typographic
+# trigger with one of its characters written that way is no trigger, whatever else the paragraph holds
+C19_TRIGGERS = ["(c)", "(C)", "(r)", "(R)", "(tm)", "(TM)", "+-", "...", "..", "--", "---", "\"a\"", "'a'", "a'b", "?....", "!....", ",,", "??", "!!!!"]
+
+
+_C19_STILL_A_TRIGGER = re.compile(r"\.{2,}|--|\+-|,,|\?\?|!!|['\"]|\((?:c|r|tm)\)", re.IGNORECASE)
+
+
+def gen_c19_literals(tier):
+    def forms_of(ch):
+        forms = [f"&#{ord(ch)};", f"&#x{ord(ch):x};"]
+        if ch in PUNCT:
+            forms.append("\\" + ch)
+        if ch == '"':
+            forms.append("&quot;")
+        return forms
+
+    for trig in C19_TRIGGERS:
+        if '"' in trig or "'" in trig:
+            # every straight quote is a trigger of its own: write all of them as escapes / references
+            for k in range(3):
+                enc = "".join((forms_of(ch) + forms_of(ch))[k] if ch in "\"'" else ch for ch in trig)
+                yield (trig, enc)
+            continue
+        for i, ch in enumerate(trig):
+            # only positions whose removal leaves no trigger behind (`&#46;..` still holds the trigger `..`)
+            if _C19_STILL_A_TRIGGER.search(trig[:i]) or _C19_STILL_A_TRIGGER.search(trig[i + 1:]):
+                continue
+            for f in forms_of(ch):
+                yield (trig, trig[:i] + f + trig[i + 1:])
+
+
+def c19_literals(state, cfg, case):
+    from markdown_it import MarkdownIt
+
+    trig, enc = case
+    key = ("c19lit", cfg)
+    if key not in state:
+        preset = U.CONFIGS[cfg][0]
+        ms = {}
+        for name, rules in (("repl", ["replacements"]), ("sq", ["smartquotes"]), ("both", ["replacements", "smartquotes"])):
+            m = MarkdownIt(preset, {"typographer": True})
+            m.enable(rules)
+            m.disable([r for r in ("replacements", "smartquotes") if r not in rules], True)
+            ms[name] = m
+        state[key] = ms
+    fails = []
+    lit = _html.escape(trig, quote=True).replace("&#x27;", "'")
+    for prefix in ("", "(r) \"q\" +- "):
+        for mode, m in state[key].items():
+            want = m.render(prefix + "zz qq").replace("zz", lit)
+            got = m.render(prefix + enc + " qq")
+            if got != want:
+                fails.append({"what": f"{mode}: {prefix + enc!r} rendered {got!r}, expected the literal {want!r} (an escaped / referenced character was rewritten)", "key": f"C19/literal/{mode}"})
+    return {"sig": (trig, enc), "fail": fails[:3]}
 
 
 def gen_inline_texts(tier):
